@@ -811,3 +811,120 @@ def preaggregate_spec(spec, h, axis, agg):
         for name in ("pit", "cdf", "qs", "thresholds", "quantiles", "other"):
             d.pop(name, None)
     return out
+
+
+# --------------------------------------------------------------------------------------
+# Probabilistic scores (C08)
+# --------------------------------------------------------------------------------------
+def prob_bin(p):
+    """Index of the probability bin [k/10, (k+1)/10) (last one closed). Only called with
+    probabilities that are not within float noise of an interior edge."""
+    k = int(math.floor(p * 10 + 1e-12))
+    return min(max(k, 0), 9)
+
+
+def near_decimal_edge(p):
+    x = p * 10
+    return abs(x - round(x)) < 1e-9 and 0 < round(x) < 10 and round(x) != 5
+
+
+def brier_terms(ps, os_):
+    """ps probabilities, os_ outcomes (0/1). Returns dict bs, bsrel, bsres, bsunc, bss, bssrel, bssres
+    (None where undefined)."""
+    n = len(ps)
+    if n == 0:
+        return dict((k, None) for k in ("bs", "bsrel", "bsres", "bsunc", "bss", "bssrel", "bssres"))
+    P = [Fraction(p) for p in ps]
+    O = [Fraction(int(o)) for o in os_]
+    obar = sum(O) / n
+    bs = sum((p - o) ** 2 for p, o in zip(P, O)) / n
+    bins = {}
+    for p, o in zip(P, O):
+        bins.setdefault(prob_bin(float(p)), []).append((p, o))
+    rel = Fraction(0)
+    res = Fraction(0)
+    for k, items in bins.items():
+        ob = sum(o for _, o in items) / len(items)
+        rel += sum((p - ob) ** 2 for p, _ in items)
+        res += len(items) * (ob - obar) ** 2
+    rel /= n
+    res /= n
+    unc = obar * (1 - obar)
+    out = {"bs": float(bs), "bsrel": float(rel), "bsres": float(res), "bsunc": float(unc)}
+    if unc == 0:
+        out.update(bss=None, bssrel=None, bssres=None)
+    else:
+        out.update(bss=float((unc - bs) / unc), bssrel=float(rel / unc), bssres=float(res / unc))
+    return out
+
+
+def ign0(ps, os_):
+    if not ps:
+        return None
+    tot = 0.0
+    for p, o in zip(ps, os_):
+        q = p if o else 1 - p
+        if q <= 0:
+            return None
+        tot += -math.log(q, 2)
+    return tot / len(ps)
+
+
+def spherical(ps, os_):
+    if not ps:
+        return None
+    return math.fsum((p if o else 1 - p) / math.sqrt(p * p + (1 - p) * (1 - p)) for p, o in zip(ps, os_)) / len(ps)
+
+
+def marginal_ratio(ps, os_):
+    if not ps or sum(ps) == 0:
+        return None
+    return (sum(1 for o in os_ if o) / float(len(os_))) / (math.fsum(ps) / len(ps))
+
+
+def quantile_score(obs, qs, tau):
+    if not obs:
+        return None
+    return math.fsum((o - q) * (tau - (1 if o < q else 0)) for o, q in zip(obs, qs)) / len(obs)
+
+
+def pit_hist_fractions(pits, nb=10):
+    counts = [0] * nb
+    for v in pits:
+        if v < 0 or v > 1:
+            continue
+        k = min(int(math.floor(v * nb + 1e-12)), nb - 1)
+        counts[k] += 1
+    tot = sum(counts)
+    return counts, tot
+
+
+def pithist_dev(pits, nb=10):
+    counts, tot = pit_hist_fractions(pits, nb)
+    if not pits or tot == 0:
+        return None
+    fr = [c / float(tot) for c in counts]
+    D = math.sqrt(sum((f - 1.0 / nb) ** 2 for f in fr) / nb)
+    D0 = math.sqrt((1 - 1.0 / nb) / (len(pits) * nb))
+    return D / D0
+
+
+def pithist_slope(pits, nb=10):
+    counts, tot = pit_hist_fractions(pits, nb)
+    if tot == 0:
+        return None
+    fr = [c / float(tot) for c in counts]
+    dx = 1.0 / nb
+    d = [(fr[i + 1] - fr[i]) / dx for i in range(nb - 1)]
+    return sum(d) / len(d)
+
+
+def pithist_shape(pits, nb=10):
+    counts, tot = pit_hist_fractions(pits, nb)
+    if tot == 0:
+        return None
+    fr = [c / float(tot) for c in counts]
+    dx = 1.0 / nb
+    d = [(fr[i + 1] - fr[i]) / dx for i in range(nb - 1)]
+    dd = [(d[i + 1] - d[i]) / dx for i in range(nb - 2)]
+    return sum(dd) / len(dd)
